@@ -429,7 +429,8 @@ func gen(body []byte) *core.Verdict {
 						steps = append(append(append([]string{}, steps[:len(steps)-1]...), "nosuchnode"), steps[len(steps)-1])
 					}
 					abs := "/" + tm + ":" + strings.Join(steps, "/"+tm+":")
-					for from, can := range imports {
+					for _, from := range []string{"a", "b", "c"} {
+						can := imports[from]
 						ok := false
 						for _, x := range can {
 							ok = ok || x == tm
